@@ -482,10 +482,142 @@ func c07ForeignEq(w *W, r *rand.Rand) {
 	}
 }
 
+// c07LongHistory: one compiled program evaluated a great many times. A variable deep in the program is read in one call,
+// then not reached for K calls (a guard short-circuits it away), then read again under another binding - K around the
+// sizes of small counters (2^8, 2^15, 2^16). Every call returns what the reference gives for its own binding.
+func c07LongHistory(w *W, r *rand.Rand) {
+	srcs := []string{
+		"(and enabled (or (= tier 1) (= tier 2)))",
+		"(if enabled (+ tier tier 1) (- 0 tier))",
+		"(or (not enabled) (and (> tier 0) (< tier 3) (!= tier 9)))",
+	}
+	src := srcs[r.Intn(len(srcs))]
+	cc := buildConfig(CaseCfg{Opts: OptSet(r.Intn(16)), VarNames: []string{"enabled", "tier"}}, nil)
+	e, co := compileGuard(cc, src)
+	tree, perr := parseDump(src)
+	if co.Panic != nil || co.Err != nil || perr != nil {
+		w.Fail("long-history/compile", "%s does not compile: %s %v", src, co, perr)
+		return
+	}
+	kind := []CallKind{CallTryEval, CallEval}[r.Intn(2)]
+	K := []int{254, 255, 256, 257, 32766, 32767, 32768, 65534, 65535, 65536, 65537}[r.Intn(11)]
+	call := func(step int, vals map[string]interface{}) bool {
+		f := &RecFetcher{Vals: vals, Keys: cc.VariableKeyMap}
+		if kind == CallTryEval && vals["tier"] == nil {
+			f.Avail = map[string]bool{"enabled": true}
+		}
+		o, _ := callExpr(e, kind, f, nil, false)
+		w.Evals++
+		env := refEnv(Binding{Vals: vals})
+		var want interface{}
+		var werr error
+		if f.Avail != nil {
+			env.Avail = f.Avail
+			want, werr = env.Kleene(tree)
+		} else {
+			want, werr = env.Eval(tree)
+		}
+		got := interface{}(o.V)
+		if isDNE(got) {
+			got = refDNE
+		}
+		if o.Panic != nil || (werr == nil) != (o.Err == nil) || (werr == nil && !valEq(want, got)) {
+			w.Fail("call-result-differs-from-isolated/long-history", "call %d of a long history on one program (the deep variable was last read %d calls earlier): %s with %v gives %s, the reference gives %s", step, K, src, vals, o, valText(want))
+			return false
+		}
+		return true
+	}
+	for cycle := 0; cycle < 2; cycle++ {
+		tierA, tierB := int64(1+r.Intn(2)), int64(5+r.Intn(3))
+		if cycle == 1 {
+			tierA, tierB = tierB, tierA
+		}
+		if !call(0, map[string]interface{}{"enabled": true, "tier": tierA}) {
+			return
+		}
+		if cycle == 0 && kind == CallTryEval && r.Intn(2) == 0 {
+			// ... or the deep variable was unavailable when it was last looked up
+			if !call(0, map[string]interface{}{"enabled": true, "tier": nil}) {
+				return
+			}
+		}
+		for i := 1; i < K; i++ {
+			if !call(i, map[string]interface{}{"enabled": false, "tier": int64(9)}) {
+				return
+			}
+		}
+		for d := 0; d < 3; d++ {
+			if !call(K+d, map[string]interface{}{"enabled": true, "tier": tierB}) {
+				return
+			}
+		}
+	}
+	w.Inc("long_histories")
+	w.Max("longest_history_calls", int64(2*K+8))
+}
+
+// c07AppendingOperator: a registered operator that returns its list argument with one more element appended (Go's
+// append on the value it was handed). The list constants of the program are not its to grow: every evaluation gives the
+// same result, and Dump shows the same constants afterwards.
+func c07AppendingOperator(w *W, r *rand.Rand) {
+	push := func(_ *eval.Ctx, p []eval.Value) (eval.Value, error) {
+		switch l := p[0].(type) {
+		case []int64:
+			return append(l, p[1].(int64)), nil
+		case []string:
+			return append(l, p[1].(string)), nil
+		}
+		return nil, ErrCustom
+	}
+	srcs := []string{
+		"(and (in i0 (list_push (1 2) 5)) (in i1 (7 8)))",
+		"(or (in i1 (7 8 9)) (overlap (list_push (1 2 3) i0) (4 5)) (in i1 (6 7)))",
+		`(and (in s0 (list_push ("a" "b") "c")) (in s0 ("d" "e")))`,
+		"(if (in i0 (list_push (list_push (1) 2) 3)) (in i1 (10 11)) (in i1 (12 13)))",
+	}
+	src := srcs[r.Intn(len(srcs))]
+	cc := buildConfig(CaseCfg{Opts: OptSet(r.Intn(16)), VarNames: []string{"i0", "i1", "s0"}}, nil)
+	cc.OperatorMap["list_push"] = push
+	e, co := compileGuard(cc, src)
+	if co.Panic != nil || co.Err != nil {
+		w.Fail("appending-operator/compile", "%s does not compile: %s", src, co)
+		return
+	}
+	before, _ := dumpGuard(e)
+	var first []Outcome
+	binds := []map[string]interface{}{
+		{"i0": int64(5), "i1": int64(7), "s0": "c"}, {"i0": int64(3), "i1": int64(5), "s0": "d"}, {"i0": int64(1), "i1": int64(12), "s0": "e"}, {"i0": int64(2), "i1": int64(8), "s0": "a"},
+	}
+	for round := 0; round < 3; round++ {
+		for i, vals := range binds {
+			kind := []CallKind{CallEval, CallTryEval}[(round+i)%2]
+			o, _ := callExpr(e, kind, &RecFetcher{Vals: vals, Keys: cc.VariableKeyMap}, nil, false)
+			w.Evals++
+			w.Inc("appending_operator_calls")
+			if round == 0 {
+				first = append(first, o)
+			} else if !outcomeEq(first[i], o) {
+				w.Fail("call-result-differs-from-isolated/appending-operator", "%s with %v gives %s in round %d and gave %s in the first round (a registered operator appends to the list it is handed)", src, vals, o, round+1, first[i])
+				return
+			}
+		}
+	}
+	after, _ := dumpGuard(e)
+	if before != after {
+		w.Fail("program-modified-by-evaluation/appending-operator", "Dump differs after evaluations in which a registered operator appended to a list it was handed\nbefore: %s\nafter:  %s", oneLine(before), oneLine(after))
+	}
+}
+
 func c07Run(w *W, idx int, race bool) {
 	r := w.Rand(idx)
 	if !race && idx%8 == 3 {
 		c07ForeignEq(w, r)
+	}
+	if !race && idx%16 == 5 {
+		c07LongHistory(w, r)
+	}
+	if !race && idx%8 == 6 {
+		c07AppendingOperator(w, r)
 	}
 	concurrent := race || idx%4 != 0
 	var pool []*c07Prog
